@@ -7,14 +7,14 @@ from kfv.rules import tensor_rules as TR
 from kfv.rules import coh_rules as C
 
 TECHNIQUE = ('typestate shape of the future slots and of every communication result, coherence of root/group/factor arguments at the '
-             'call sites of step()/hooks/load_state_dict, phase order by statement dominance, averaging divisor, strategy enum mapping')
+             'call sites of step()/hooks/load_state_dict, phase order by statement dominance, averaging divisor, strategy enum mapping; alias rules on the gradient slot (in-place sinks incl. out= and receive buffers, pooled storage)')
 EXPLANATION = (
     'Necessary structural conditions of placement transparency are decided on every path: results of asynchronous '
     'communication are only reachable through awaiting accessors and are stored into the slot they communicate; factor '
     'reductions are averaged over the group communicated on; inverses are computed on the assigned rank and broadcast from '
     'it inside the layer\'s gradient-worker group, gradients from the rank\'s source inside its receiver group; the phases of '
     'a step run in the specified order; the strategy enum maps to the specified fractions.  Equality of gradients across '
-    'configurations as values is not decided.')
+    'configurations as values is not decided. The gradient slot never aliases the module gradient or a pooled buffer other layers can obtain, and the receive placeholder of broadcast_grad matches the source\'s dtype and sizes.')
 
 NOT_DECIDED = 'equality of gradients across configurations as values; grid arithmetic'
 
